@@ -60,6 +60,14 @@ pub enum Call {
     SerWordSameLength,
     /// serialisation that fails midway through a shared graph
     SerFailsMidway,
+    /// a value with a `!!binary` scalar, to a string
+    SerBinary,
+    /// the same value to a writer that refuses everything from byte `at` on (`blob: !!binary ` is 15 bytes)
+    SerBinaryWriterFails { at: u8 },
+    /// validation failure of a renamed field whose YAML key has several near-miss spellings next to it:
+    /// the located key must be the same on every call (garde / validator)
+    ValidFuzzyGarde,
+    ValidFuzzyValidator,
     /// outer document with three nest points; the inner call runs at nest point k (3 = never)
     NestRc { k: u8, inner: Box<Call> },
     /// the nest point sits inside an anchored node deserialized into an RcAnchor (anchor context stack not empty)
@@ -67,7 +75,14 @@ pub enum Call {
     NestRecursive { k: u8, inner: Box<Call> },
 }
 
-pub const BASIC: [Call; 34] = [
+pub const BASIC: [Call; 41] = [
+    Call::SerBinary,
+    Call::SerBinaryWriterFails { at: 0 },
+    Call::SerBinaryWriterFails { at: 15 },
+    Call::SerBinaryWriterFails { at: 20 },
+    Call::SerBinaryWriterFails { at: 40 },
+    Call::ValidFuzzyGarde,
+    Call::ValidFuzzyValidator,
     Call::OkCfg,
     Call::OkJsonAnchors,
     Call::FailMidAnchor,
@@ -257,6 +272,44 @@ impl Serialize for FailingSer {
         Err(serde::ser::Error::custom("probe-ser-error"))
     }
 }
+
+struct Blob(Vec<u8>);
+impl Serialize for Blob {
+    fn serialize<S: serde::Serializer>(&self, s: S) -> Result<S::Ok, S::Error> {
+        s.serialize_bytes(&self.0)
+    }
+}
+
+#[derive(Serialize)]
+struct BlobDoc {
+    blob: Blob,
+    tail: String,
+    more: Vec<Blob>,
+}
+
+fn blob_doc() -> BlobDoc {
+    BlobDoc {
+        blob: Blob(b"hello world".to_vec()),
+        tail: "t".into(),
+        more: vec![Blob(vec![0, 255, 7]), Blob(vec![])],
+    }
+}
+
+#[derive(Debug, Deserialize, garde::Validate, validator::Validate)]
+#[allow(dead_code)]
+struct Account {
+    #[serde(rename = "User_Name")]
+    #[garde(length(min = 3))]
+    #[validate(length(min = 3))]
+    user_name: String,
+    #[serde(rename = "displayTitle", default)]
+    #[garde(length(max = 4))]
+    #[validate(length(max = 4))]
+    display_title: String,
+}
+
+/// near-miss spellings (ignored by serde) around the real keys, in both orders
+const FUZZY_DOC: &str = "userName: legacy one\nuser-name: legacy two\nUser_Name: ab\ndisplayTitle: much too long\ndisplay_title: q\nDisplay-Title: r\nDISPLAYTITLE: s\n";
 
 #[derive(Serialize)]
 struct SerFailDoc {
@@ -544,6 +597,39 @@ pub fn run_call(c: &Call) -> String {
                 Err(a) => format!("{a:?}"),
             }
         }
+        Call::SerBinary => match guard(|| serde_saphyr::to_string(&blob_doc())) {
+            Ok(Ok(t)) => t,
+            Ok(Err(e)) => format!("SerErr({e})"),
+            Err(a) => format!("{a:?}"),
+        },
+        Call::SerBinaryWriterFails { at } => {
+            let mut w = SimWriter::new(
+                WriterScript {
+                    fail_at_byte: Some(*at as usize),
+                    sticky: true,
+                    ..Default::default()
+                },
+                100_000,
+            );
+            let h = w.clone();
+            let r = guard(|| serde_saphyr::to_io_writer(&mut w, &blob_doc()));
+            let written = String::from_utf8_lossy(&h.st.borrow().accepted).into_owned();
+            match r {
+                Ok(Ok(())) => format!("Ok wrote {written:?}"),
+                Ok(Err(e)) => format!("SerErr({e}) wrote {written:?}"),
+                Err(a) => format!("{a:?}"),
+            }
+        }
+        Call::ValidFuzzyGarde => match guard(|| serde_saphyr::from_str_valid::<Account>(FUZZY_DOC)) {
+            Ok(Ok(v)) => format!("{v:?}"),
+            Ok(Err(e)) => format!("{} | {}", err_str(&e), e),
+            Err(a) => format!("{a:?}"),
+        },
+        Call::ValidFuzzyValidator => match guard(|| serde_saphyr::from_str_validate::<Account>(FUZZY_DOC)) {
+            Ok(Ok(v)) => format!("{v:?}"),
+            Ok(Err(e)) => format!("{} | {}", err_str(&e), e),
+            Err(a) => format!("{a:?}"),
+        },
         Call::SerFailsMidway => {
             let s = std::rc::Rc::new("shared".to_string());
             let d = SerFailDoc {
